@@ -131,14 +131,14 @@ pub proof fn lemma_span_props(s: Seq<char>, f: spec_fn(char) -> bool)
     }
 }
 // ---- one-character literals: `literal("c")` reads exactly the character c
-pub open spec fn s1(c: char) -> Seq<char> { seq![c] }
-pub open spec fn s2(c: char, d: char) -> Seq<char> { seq![c, d] }
+pub open spec fn ch1(c: char) -> Seq<char> { seq![c] }
+pub open spec fn ch2(c: char, d: char) -> Seq<char> { seq![c, d] }
 pub proof fn lemma_prefix1(c: char)
-    ensures forall|i: Seq<char>| #[trigger] s1(c).is_prefix_of(i) <==> (i.len() > 0 && i[0] == c),
+    ensures forall|i: Seq<char>| #[trigger] ch1(c).is_prefix_of(i) <==> (i.len() > 0 && i[0] == c),
 {
-    assert forall|i: Seq<char>| #[trigger] s1(c).is_prefix_of(i) <==> (i.len() > 0 && i[0] == c) by {
-        if i.len() > 0 && i[0] == c { assert(s1(c) =~= i.subrange(0, 1)); }
-        if s1(c).is_prefix_of(i) { assert(i.subrange(0, 1)[0] == s1(c)[0]); }
+    assert forall|i: Seq<char>| #[trigger] ch1(c).is_prefix_of(i) <==> (i.len() > 0 && i[0] == c) by {
+        if i.len() > 0 && i[0] == c { assert(ch1(c) =~= i.subrange(0, 1)); }
+        if ch1(c).is_prefix_of(i) { assert(i.subrange(0, 1)[0] == ch1(c)[0]); }
     }
 }
 // ---- `separated(1.., identifier, literal("."))` reads what g_idents reads (induction over the list winnow returns)
@@ -186,3 +186,13 @@ pub proof fn lemma_sep_all_idents<'s, E, P: Parser<&'s str, Identifier, E>, S: P
         if k > 0 { assert(out[k] == out.drop_first()[k - 1]); }
     }
 }
+pub proof fn lemma_all_blank(s: Seq<char>)
+    ensures all_blank(s) <==> ws_span(s) == s.len(), 0 <= ws_span(s) <= s.len(),
+{
+    lemma_span_props(s, |c: char| ws_char(c));
+    if all_blank(s) && ws_span(s) < s.len() { assert(ws_char(s[ws_span(s)])); }
+}
+
+// ===================== C05, clause by clause, over the reference grammar =====================
+// (ref_parse / too_long are defined next to Version::parse's contract: `Version::parse(text)` is Ok(v) exactly when ref_parse(text@)
+// is Some(s) with version_is(v, s) and the text is not too long)
